@@ -41,6 +41,11 @@ LEVELS = {
     "no_sse41": ("no_avx2", "no_avx512", "no_sse41"),
     "portable": PORTABLE,
     "pure": ("pure",),
+    "prefer_intrinsics": ("prefer_intrinsics",),
+    "pi_no_avx512": ("prefer_intrinsics", "no_avx512"),
+    "pi_no_avx2": ("prefer_intrinsics", "no_avx2", "no_avx512"),
+    "pure_no_avx2": ("pure", "no_avx2"),
+    "pure_no_sse41": ("pure", "no_avx2", "no_sse41"),
 }
 DRIVER_FEATURE = {"traits-preview": "traits", "zeroize": "zeroize"}      # blake3 feature -> driver feature
 
@@ -1133,7 +1138,8 @@ def fam_platform(rng, platforms=("portable", "detect", "sse2", "sse41", "avx2"))
                 out.append({"kind": "platform", "platform": p, "fn": fn, "cv_hex": iv, "block_hex": blk,
                             "block_len": 64, "counter": 1 << 33, "flags": fl})
         for nb in (1, 2, 3, 4, 5, 7, 8, 9, 15, 16, 17, 33):
-            for c in (0, (1 << 32) - 2, U64 - 40):
+            # block counters straddling 2^31 and 2^32 inside one SIMD batch (lane != 0), and near 2^64
+            for c in (0, (1 << 32) - 2, U64 - 40, (1 << 31) - 5, (1 << 32) - 5, (1 << 33) - 9):
                 out.append({"kind": "platform", "platform": p, "fn": "xof_many", "cv_hex": _rand_hex(rng, 32),
                             "block_hex": blk, "block_len": 64 if nb % 2 else 17, "counter": c, "flags": 8 | 2 | 1,
                             "blocks": nb})
@@ -1158,7 +1164,7 @@ FAMILIES = {
     "hazmat_ops": (fam_hazmat_ops, ()),
     "hex": (fam_hex, ()),
     "guts": (fam_guts, ()),
-    "traits": (fam_traits, ("traits-preview",)),
+    "traits": (fam_traits, ("traits-preview", "zeroize")),
     "reader": (fam_reader, ()),
     "rayon_mmap": (fam_rayon_mmap, ("mmap", "rayon")),
     "platform": (fam_platform, ()),
@@ -1170,7 +1176,7 @@ FAMILIES = {
 # part 4: obligation -> families, find(), rerun()
 # ==============================================================================================
 GENERAL = ["default", "portable"]
-SIMD_ALL = ["default", "portable", "pure", "no_avx512", "no_avx2", "no_sse41"]
+SIMD_ALL = ["default", "portable", "pure", "no_avx512", "no_avx2", "no_sse41", "prefer_intrinsics"]
 
 # (regex on the obligation's function path, families in order, SIMD variants in order, platforms for
 #  the `platform` family).  First match wins.
@@ -1312,6 +1318,12 @@ def find(prop, fo, seed):
         sp["log"]["seconds"] = round(time.time() - t0, 1)
         return sp
     fams, variants, plats, rule = plan(function)
+    if (fo or {}).get("variants"):
+        # the caller knows which build flavours reach the suspect code (guard:kernels): try those first
+        hinted = [v for v in fo["variants"] if v in LEVELS]
+        variants = hinted + [v for v in variants if v not in hinted]
+    if (fo or {}).get("families"):
+        fams = [f for f in fo["families"] if f in FAMILIES] + [f for f in fams if f not in fo["families"]]
     extras = tuple(sorted({f for fam in fams for f in FAMILIES[fam][1]}))
     log = {"function": function, "rule": rule or "generic smoke (function not in the table)", "families": fams,
            "variants": variants, "seed": seed, "scenarios_run": 0, "skipped": 0, "per_family": [], "builds": [],
